@@ -1,4 +1,5 @@
 """C16 - fastboot command/response state machine and exact image transfer."""
+import functools
 import io
 import itertools
 import sys
@@ -15,7 +16,7 @@ RULE = ('Case = a FastbootCommands entry point (getvar, oem, erase, flash, reboo
         'image of size in {0,1,c-1,c,c+1,2c-1,2c,2c+1,3c+7} for chunk size c=1 KiB, as file object with and without source_len) x a '
         'device response sequence over {INFO x, OKAY x, DATA(size=image), DATA(size!=image), FAIL x, garbage header}.  ALL '
         'sequences up to length 3 (quick) / 4 (thorough) are enumerated for every entry point class, longer ones are drawn by '
-        'Hypothesis; progress callback in {none, recording, raising}.  Oracle = a reference state machine written from the '
+        'Hypothesis; progress callback in {none, recording, raising} x {function, lambda, bound method, functools.partial, callable object}.  Oracle = a reference state machine written from the '
         'statement: exactly one "command[:arg]" packet per command ("download:%08x"), INFO packets forwarded to the callback in '
         'order, return value = payload of the terminating OKAY, FAIL -> FastbootRemoteFailureError carrying the text, out-of-place '
         'DATA/OKAY -> FastbootStateMismatchError, other header -> FastbootInvalidResponseError; image bytes only after DATA with '
@@ -113,6 +114,18 @@ def check(case):
     if case.get('progress') == 'raise':
       raise RuntimeError('progress callback raises')
 
+  # the callback is handed over as any kind of callable: plain function, lambda, bound method, functools.partial or an
+  # object with __call__ (the last two have no __name__/__qualname__)
+  class Reporter(object):
+    def __call__(self, cur, total):
+      return prog_cb(cur, total)
+
+    def report(self, cur, total):
+      return prog_cb(cur, total)
+
+  cb_kind = case.get('cb_kind', 'function')
+  progress_callable = {'function': prog_cb, 'lambda': lambda c, t: prog_cb(c, t), 'method': Reporter().report,
+                       'partial': functools.partial(prog_cb), 'object': Reporter()}[cb_kind]
   got = None
   try:
     if kind == 'download':
@@ -121,7 +134,7 @@ def check(case):
       if case['cmd'][2]:
         kw['source_len'] = size
       if case.get('progress', 'none') != 'none':
-        kw['progress_callback'] = prog_cb
+        kw['progress_callback'] = progress_callable
       got = ('ok', fc.download(io.StringIO(img), **kw))
       exp_packet = 'download:%08x' % size
     else:
@@ -206,8 +219,11 @@ def check(case):
   n_info_before_final = len(ref['infos'])
   r.nontrivial = n_info_before_final >= 1 or kind == 'download'
   r.classes = ['cmd:' + kind, 'result:' + (want[1] if want[0] == 'exc' else 'ok'), 'seqlen:%d' % len(case['seq'])] + (
-      ['size:%d' % size, 'progress:' + case.get('progress', 'none')] if kind == 'download' else [])
+      ['size:%d' % size, 'progress:' + case.get('progress', 'none'), 'cb:' + case.get('cb_kind', 'function')] if kind == 'download' else [])
   return r
+
+
+CB_KINDS = ['function', 'lambda', 'method', 'partial', 'object']
 
 
 def exhaustive_cases(maxlen):
@@ -216,7 +232,11 @@ def exhaustive_cases(maxlen):
       for cmd in COMMANDS:
         yield {'cmd': cmd, 'seq': list(seq), 'progress': 'none'}
       for k, size in enumerate(SIZES):
-        yield {'cmd': ['download', size, bool(k % 2)], 'seq': list(seq), 'progress': ['none', 'rec', 'raise'][(k + n) % 3]}
+        for cb_kind in CB_KINDS:
+          progress = ['none', 'rec', 'raise'][(k + n) % 3]
+          if progress == 'none' and cb_kind != 'function':
+            continue
+          yield {'cmd': ['download', size, bool(k % 2)], 'seq': list(seq), 'progress': progress, 'cb_kind': cb_kind}
 
 
 @st.composite
@@ -225,7 +245,8 @@ def drawn_cases(draw):
   if draw(st.booleans()):
     return {'cmd': draw(st.sampled_from(COMMANDS)), 'seq': seq, 'progress': 'none'}
   size = draw(st.one_of(st.sampled_from(SIZES), st.integers(0, 4 * CHUNK)))
-  return {'cmd': ['download', size, draw(st.booleans())], 'seq': seq, 'progress': draw(st.sampled_from(['none', 'rec', 'raise']))}
+  return {'cmd': ['download', size, draw(st.booleans())], 'seq': seq, 'progress': draw(st.sampled_from(['none', 'rec', 'raise'])),
+          'cb_kind': draw(st.sampled_from(CB_KINDS))}
 
 
 def plan(tier, seed):
